@@ -2,6 +2,7 @@ package client
 
 import (
 	"errors"
+	"github.com/aws/smithy-go"
 
 	"github.com/aws/aws-sdk-go-v2/aws"
 	"github.com/aws/aws-sdk-go-v2/service/dynamodb"
@@ -689,9 +690,13 @@ func mapKnownError(err error) error {
 		return checkErr
 	case "ResourceNotFoundException":
 		return &dynamodbtypes.ResourceNotFoundException{Message: aws.String(intErr.Message())}
+	case "ResourceInUseException":
+		return &dynamodbtypes.ResourceInUseException{Message: aws.String(intErr.Message())}
 	}
 
-	return err
+	// every other error of the core (ValidationException ...) reaches the caller as an API error of
+	// the SDK too, so that errors.As(err, &smithy.APIError) and ErrorCode() work for all of them
+	return &smithy.GenericAPIError{Code: intErr.Code(), Message: intErr.Message()}
 }
 
 // the stored data must not share memory with the structures of the caller
